@@ -268,6 +268,13 @@ func shrinkAndConfirm(p *propCfg, worker, dir string, cases []caseDoc) (caseDoc,
 		if err != nil {
 			return nil, nil, err.Error()
 		}
+		if v != nil && v.key() != want.key() && i == 0 {
+			// the fresh process reports another violation for the minimised case (a worker that
+			// died during exploration leaves a case without a schedule; replayed with one it
+			// may get further and fail its oracle instead): still a confirmed violation,
+			// reported as what the fresh processes say, provided both of them agree
+			want = v
+		}
 		if v == nil || v.key() != want.key() {
 			return nil, nil, fmt.Sprintf("strict replay of the minimised case gave %v", v)
 		}
